@@ -1157,3 +1157,294 @@ pub fn c14_tcp(args: &Args) {
     report.floor("replies_checked", 5_000);
     report.finish(args);
 }
+
+// ---------------------------------------------------------------------------
+// C14 on real TCP with faults: a forwarder between the clients and the server
+// cuts (FIN or RST) or stalls connections at seeded moments, also while a
+// handler is running, so that replies are lost after the request was executed.
+// ---------------------------------------------------------------------------
+
+struct ProxyCtl {
+    /// relays of the live connections (aborting one drops both of its sockets)
+    relays: Mutex<Vec<tokio::task::AbortHandle>>,
+    /// while set nothing is forwarded in either direction
+    hold: std::sync::atomic::AtomicBool,
+    /// sockets are closed with RST (linger 0) instead of FIN
+    rst: std::sync::atomic::AtomicBool,
+    accepted: std::sync::atomic::AtomicU64,
+    /// >= 0: forwarding stalls by itself once that many more bytes have travelled towards the clients
+    /// (i.e. in the middle of the replies); the nemesis releases it
+    stall_after_reply_bytes: std::sync::atomic::AtomicI64,
+    self_stalls: std::sync::atomic::AtomicU64,
+}
+
+async fn pump(mut from: tokio::net::tcp::OwnedReadHalf, mut to: tokio::net::tcp::OwnedWriteHalf, ctl: Arc<ProxyCtl>, towards_client: bool) {
+    use std::sync::atomic::Ordering::SeqCst;
+    use tokio::io::{AsyncReadExt, AsyncWriteExt};
+    let mut buf = vec![0u8; 4 << 10];
+    loop {
+        let n = match from.read(&mut buf).await {
+            Ok(0) | Err(_) => break,
+            Ok(n) => n,
+        };
+        if towards_client && ctl.stall_after_reply_bytes.load(SeqCst) >= 0 {
+            let left = ctl.stall_after_reply_bytes.fetch_sub(n as i64, SeqCst) - n as i64;
+            if left < 0 {
+                ctl.stall_after_reply_bytes.store(-1, SeqCst);
+                ctl.self_stalls.fetch_add(1, SeqCst);
+                ctl.hold.store(true, SeqCst);
+            }
+        }
+        while ctl.hold.load(SeqCst) {
+            tokio::time::sleep(Duration::from_millis(1)).await;
+        }
+        if to.write_all(&buf[..n]).await.is_err() {
+            break;
+        }
+    }
+    let _ = to.shutdown().await;
+}
+
+async fn run_proxy(listener: tokio::net::TcpListener, upstream: SocketAddr, ctl: Arc<ProxyCtl>) {
+    use std::sync::atomic::Ordering::SeqCst;
+    loop {
+        let Ok((down, _)) = listener.accept().await else { return };
+        ctl.accepted.fetch_add(1, SeqCst);
+        let ctl2 = ctl.clone();
+        let relay = tokio::spawn(async move {
+            let Ok(up) = tokio::net::TcpStream::connect(upstream).await else { return };
+            let _ = down.set_nodelay(true);
+            let _ = up.set_nodelay(true);
+            if ctl2.rst.load(SeqCst) {
+                let _ = down.set_linger(Some(Duration::ZERO));
+                let _ = up.set_linger(Some(Duration::ZERO));
+            }
+            let (dr, dw) = down.into_split();
+            let (ur, uw) = up.into_split();
+            // both directions inside this one task: aborting it drops all four halves at once
+            tokio::join!(pump(dr, uw, ctl2.clone(), false), pump(ur, dw, ctl2.clone(), true));
+        });
+        let mut g = ctl.relays.lock();
+        g.retain(|h| !h.is_finished());
+        g.push(relay.abort_handle());
+    }
+}
+
+pub fn c14_tcp_faults(args: &Args) {
+    use std::sync::atomic::Ordering::SeqCst;
+    let mut report = Report::new(
+        args,
+        "E3-wire-faults",
+        "the production connector under connection faults: a real Server on loopback behind a TCP forwarder owned by the monitor; clients (two Channels, clones of a client with a 250 ms timeout) issue batches of 4..40 concurrent requests with unique ids (handler latency 0-25 ms, replies 0 B..64 KiB) while a seeded nemesis cuts every live connection (FIN or RST) 0-30 ms into the batch, or stalls forwarding for 20-600 ms, or does nothing. Per request: Ok => the reply carries this request's id and the payload the handler computed for it and the handler ran exactly once; Err => the code is ConnectionError or Timeout; in every case the handler ran AT MOST once (no hidden re-send of a request whose reply was lost); a call that takes > 5 s although the timeout is 250 ms is a missed timeout (generous bound, real time). Observed: requests executed whose reply was lost (error returned although the handler ran). Non-trivial: batches in which the nemesis acted; distinct = distinct (batch, action) pairs.",
+    );
+    let seed = args.seed;
+    let batches = args.pick(260, 12_000);
+    let budget = Duration::from_secs(args.pick(150, 1_800));
+    let outs = block_on_real(8, async move {
+        let mut outs = Vec::new();
+        let addr = free_tcp_addr();
+        let server = match Server::listen(addr).await {
+            Ok(s) => s,
+            Err(e) => {
+                let mut o = CaseOut::default();
+                o.inconclusive = Some(format!("cannot listen: {e}"));
+                return vec![o];
+            },
+        };
+        let calls: Arc<Mutex<HashMap<u64, u32>>> = Default::default();
+        server.add_service(TagSvc { calls: calls.clone() });
+        let listener = match tokio::net::TcpListener::bind("127.0.0.1:0").await {
+            Ok(l) => l,
+            Err(e) => {
+                let mut o = CaseOut::default();
+                o.inconclusive = Some(format!("cannot bind the forwarder: {e}"));
+                return vec![o];
+            },
+        };
+        let paddr = listener.local_addr().unwrap();
+        let ctl = Arc::new(ProxyCtl {
+            relays: Mutex::new(Vec::new()),
+            hold: Default::default(),
+            rst: Default::default(),
+            accepted: Default::default(),
+            stall_after_reply_bytes: std::sync::atomic::AtomicI64::new(-1),
+            self_stalls: Default::default(),
+        });
+        // scheduling lag of this very process: a ticker that should wake every 5 ms
+        let lag_ms = Arc::new(AtomicU64::new(0));
+        let lag2 = lag_ms.clone();
+        let ticker = tokio::spawn(async move {
+            loop {
+                let t = std::time::Instant::now();
+                tokio::time::sleep(Duration::from_millis(5)).await;
+                lag2.fetch_max(t.elapsed().as_millis() as u64, SeqCst);
+            }
+        });
+        let proxy = tokio::spawn(run_proxy(listener, addr, ctl.clone()));
+        let channels: Vec<Channel> = (0..2).map(|_| Channel::connect(paddr)).collect();
+        let timeout = Duration::from_millis(250);
+        let mut next_id = 1u64;
+        let started = std::time::Instant::now();
+        for b in 0..batches {
+            if started.elapsed() > budget {
+                break;
+            }
+            let mut rng = rng_for(seed, 0xC14_FA17, b);
+            let n = rng.gen_range(4..40);
+            // 0 none, 1 cut with FIN, 2 cut with RST, 3 stall shorter than the timeout, 4 stall longer than the timeout,
+            // 5 stall (1.5 s) that begins in the middle of the replies: after 1 B..300 KiB have gone back to the clients
+            let action = *[0u8, 1, 1, 1, 2, 2, 2, 3, 4, 5].choose(&mut rng).unwrap();
+            let at = Duration::from_micros(rng.gen_range(0..30_000));
+            let stall = Duration::from_millis(match action {
+                3 => rng.gen_range(20..150),
+                5 => 1_500,
+                _ => rng.gen_range(300..600),
+            });
+            ctl.rst.store(action == 2, SeqCst);
+            lag_ms.store(0, SeqCst);
+            if action == 5 {
+                ctl.stall_after_reply_bytes.store(rng.gen_range(1..300_000), SeqCst);
+            }
+            let mut hs = Vec::new();
+            let first = next_id;
+            for _ in 0..n {
+                let id = next_id;
+                next_id += 1;
+                let mut configured = RpcClient::<TagSvc>::new(channels[rng.gen_range(0..channels.len())].clone());
+                configured.set_timeout(timeout);
+                let client = configured.clone();
+                let (d, mut l) = (rng.gen_range(0..25_000u32), *[0u32, 1, 16, 100, 4_096, 65_536].choose(&mut rng).unwrap());
+                if action == 5 {
+                    l = *[65_536u32, 200_000, 400_000].choose(&mut rng).unwrap();
+                }
+                let jitter = Duration::from_micros(rng.gen_range(0..20_000));
+                hs.push(tokio::spawn(async move {
+                    tokio::time::sleep(jitter).await;
+                    let t0 = std::time::Instant::now();
+                    let r = client.send(&Tagged { id, delay_us: d, len: l }).await;
+                    (id, l, t0.elapsed(), r.map(|v| (v.id.value(), v.payload.as_slice() == tag_payload(id, l).as_slice())).map_err(|e| e.code))
+                }));
+            }
+            let ctl2 = ctl.clone();
+            let nemesis = tokio::spawn(async move {
+                tokio::time::sleep(at).await;
+                match action {
+                    1 | 2 => {
+                        let hs: Vec<_> = ctl2.relays.lock().drain(..).collect();
+                        let n = hs.iter().filter(|h| !h.is_finished()).count();
+                        for h in hs {
+                            h.abort();
+                        }
+                        n
+                    },
+                    3 | 4 => {
+                        ctl2.hold.store(true, SeqCst);
+                        tokio::time::sleep(stall).await;
+                        ctl2.hold.store(false, SeqCst);
+                        1
+                    },
+                    5 => {
+                        // the forwarder stalls by itself in mid-reply; release it after the stall time
+                        tokio::time::sleep(stall).await;
+                        let hit = ctl2.stall_after_reply_bytes.swap(-1, SeqCst) < 0;
+                        ctl2.hold.store(false, SeqCst);
+                        hit as usize
+                    },
+                    _ => 0,
+                }
+            });
+            let mut out = CaseOut::default();
+            let mut results = Vec::new();
+            for h in hs {
+                match h.await {
+                    Ok(r) => results.push(r),
+                    Err(e) => out.inconclusive = Some(format!("task failed: {e}")),
+                }
+            }
+            let acted = nemesis.await.unwrap_or(0);
+            if acted > 0 {
+                out.nontrivial = Some(hash_of(&("tcp-fault-batch", b, action)));
+                out.count(match action { 1 => "cuts_fin", 2 => "cuts_rst", 3 => "short_stalls", 4 => "long_stalls", _ => "stalls_in_mid_reply" }, 1);
+            }
+            // handlers of cut requests may still be running: let them finish before counting invocations
+            tokio::time::sleep(Duration::from_millis(30)).await;
+            let c = calls.lock();
+            for (id, l, took, r) in results {
+                let ran = c.get(&id).copied().unwrap_or(0);
+                out.count("requests_checked", 1);
+                let outcome = format!("{r:?}");
+                if ran > 1 {
+                    out.violate("C14:request-executed-more-than-once:real-tcp", json!({"request": id, "handler_invocations": ran, "outcome": outcome, "batch": b, "action": action}));
+                }
+                match r {
+                    Ok((rid, same)) => {
+                        out.count("replies_checked", 1);
+                        if rid != id {
+                            out.violate("C14:reply-of-another-request:real-tcp", json!({"request": id, "reply_id": rid, "batch": b}));
+                        } else if !same {
+                            out.violate("C14:reply-payload-differs-from-what-the-handler-computed:real-tcp", json!({"request": id, "len": l, "batch": b}));
+                        }
+                        if ran == 0 {
+                            out.violate("C14:answered-request-never-executed:real-tcp", json!({"request": id, "batch": b}));
+                        }
+                    },
+                    Err(code) => {
+                        out.count("errors_returned", 1);
+                        if ran == 1 {
+                            out.count("executed_but_reply_lost", 1);
+                        }
+                        match &code {
+                            ErrorCode::ConnectionError => out.count("connection_errors", 1),
+                            ErrorCode::Timeout => out.count("timeouts", 1),
+                            other => out.violate(
+                                format!("C14:transport-fault-reported-as-{other:?}:real-tcp"),
+                                json!({"request": id, "batch": b, "action": action, "handler_invocations": ran}),
+                            ),
+                        }
+                        if action == 0 {
+                            out.violate("C14:fault-free-request-failed:real-tcp", json!({"request": id, "code": format!("{code:?}"), "batch": b}));
+                        }
+                    },
+                }
+                // real time: a bound of timeout + 750 ms, and only when this process' own scheduling lag
+                // (5 ms ticker) stayed under 150 ms during the batch; otherwise nothing is concluded
+                if took > timeout + Duration::from_millis(750) {
+                    let lag = lag_ms.load(SeqCst);
+                    if lag < 150 {
+                        out.violate(
+                            if action == 5 { "C14:answer-later-than-the-configured-timeout:stall-in-mid-reply:real-tcp" } else { "C14:answer-later-than-the-configured-timeout:real-tcp" },
+                            json!({"request": id, "took_ms": took.as_millis() as u64, "timeout_ms": 250, "batch": b, "action": action, "outcome": outcome, "reply_len": l, "max_scheduling_lag_ms": lag}),
+                        );
+                    } else {
+                        out.count("late_answers_not_judged_because_of_scheduling_lag", 1);
+                    }
+                }
+            }
+            drop(c);
+            let _ = first;
+            if b == 0 {
+                out.sample = Some(json!({"batch": 0, "concurrent_requests": n, "action": action, "at_us": at.as_micros() as u64}));
+            }
+            if !out.violations.is_empty() {
+                out.replay = Some(json!({"seed": seed, "batch": b}));
+            }
+            outs.push(out);
+        }
+        let mut last = CaseOut::default();
+        last.count("connections_accepted_by_forwarder", ctl.accepted.load(SeqCst));
+        ticker.abort();
+        outs.push(last);
+        proxy.abort();
+        server.shutdown();
+        outs
+    });
+    for o in outs {
+        report.absorb(o);
+    }
+    report.floor("requests_checked", 2_000);
+    report.floor("executed_but_reply_lost", 50);
+    report.floor("timeouts", 20);
+    report.floor("connection_errors", 20);
+    report.floor("stalls_in_mid_reply", 8);
+    report.finish(args);
+}
